@@ -98,6 +98,7 @@ type Unit struct {
 	branchSeen   map[int]bool
 	sliceCaps    []*Term
 	ptrs         []typedPtr
+	allocs       []typedPtr // local variables (struct / array) allocated so far: concrete object ids
 	ptrSeen      map[[2]int]bool
 	Failed   string // set when the unit could not be encoded at all
 }
